@@ -3,6 +3,8 @@
    gopacket / libpcap are modelled by the ideal reassembler Tcp.v, whose round-trip theorem is the
    specification the correspondence check holds the library to. *)
 From Pk Require Import BuilderOrder BuilderOrderProofs Attrib AttribProofs Udp UdpProofs UdpInterleave Tcp TcpProofs.
+From Pk Require Import Import ImportIndex.
+Require Pk.IndexFormat Pk.IndexFormatWriter Pk.IndexFormatData.
 From Coq Require Import Sorting.Sorted Sorting.Permutation.
 
 (* (1) The lazy multi-capture loop feeds the reassemblers the sorted list of all needed packets, each once. *)
@@ -86,3 +88,30 @@ Example C05_reasm_example :
   let l := [(2, [99; 100; 101; 102; 103; 104]); (1, [98]); (0, [97]); (0, [97; 98; 99]); (5, [102; 103; 104])] in
   Forall (slice data) l /\ reasm l = data.
 Proof. split; [repeat constructor; vm_compute; discriminate|vm_compute; reflexivity]. Qed.
+
+(* (5) Composition with C01 (the index format model Pk.IndexFormat and its round-trip theorem are owned by C01 and only
+   imported): every stream the UDP assembler hands to the writer is well formed for it, and Stream.Data() of the stored
+   stream returns, per direction, exactly the payload the import model attributes to that direction, changing
+   direction exactly where the model's runs do.  [to_istream] is the streams.Stream a model stream stands for
+   (addresses, file names and the time base are parameters).  The remaining hypotheses are C01's own side conditions
+   (AddStream sequence succeeded, reader opened, sizes below the field widths). *)
+Theorem C05_udp_streams_well_formed : forall hashf l, Forall swf (fst (udp_run hashf l)).
+Proof. exact udp_streams_well_formed. Qed.
+
+Theorem C05_written_stream_data_reads_back :
+  forall (addr_bytes file_name : N -> list N) (ts_ns : N -> N) gcap (L : list (N * stream)) w r,
+  16 < gcap <= 4 * Pk.IndexFormat.P16 ->
+  Forall (fun ids => Pk.IndexFormatWriter.wf_meta (snd ids)) (to_L addr_bytes file_name ts_ns L) ->
+  Pk.IndexFormat.add_streams gcap Pk.IndexFormat.new_writer (to_L addr_bytes file_name ts_ns L) = Some w ->
+  Pk.IndexFormat.new_reader (Pk.IndexFormat.finalize w) = Some r ->
+  Pk.IndexFormat.lenN (Pk.IndexFormat.w_packets w) < Pk.IndexFormat.P32 ->
+  forall k id s rec, nth_error L k = Some (id, s) -> swf s -> s_pkts s <> [] ->
+    Pk.IndexFormat.lenN (Pk.IndexFormat.stream_payload (to_istream addr_bytes file_name ts_ns s) false) +
+    Pk.IndexFormat.lenN (Pk.IndexFormat.stream_payload (to_istream addr_bytes file_name ts_ns s) true) < Pk.IndexFormat.P64 ->
+    nth_error (Pk.IndexFormat.all_streams r) k = Some rec ->
+    exists cks, Pk.IndexFormat.data r rec = Some cks /\
+      (forall d, Pk.IndexFormatData.payload_dir d cks =
+                 concat (map snd (filter (fun x => Bool.eqb (fst x) d) (stream_data s)))) /\
+      Pk.IndexFormatData.compress (map Pk.IndexFormat.c_dir cks) =
+      Pk.IndexFormatData.compress (map fst (filter (fun x => negb (lenN (snd x) =? 0)) (coalesce (stream_data s)))).
+Proof. exact written_stream_data_reads_back. Qed.
